@@ -207,6 +207,7 @@ class Sim:
         self.net = None
         self.tasks = []
         self.stop_reason = None
+        self.harness_errors = []
 
     # ------------------------------------------------------------------ log
     def rec(self, kind, *args):
@@ -516,6 +517,9 @@ class Sim:
     def step_check(self):
         pass
 
+    def boundary_check(self):
+        pass
+
     def abstract_state(self):
         return None
 
@@ -543,6 +547,12 @@ class Sim:
         st = self.abstract_state()
         if st is not None:
             self.abs_states.add(hash(st))
+        try:
+            self.boundary_check()
+        except Violation as v:
+            self.violation = v
+            self._stop("violation")
+            return
         if self.n_boundaries > self.cfg["max_boundaries"]:
             if self.t_fault_end is None:
                 self.t_fault_end = self.loop.time()
@@ -671,6 +681,11 @@ class Sim:
         for a in self.settle_actions():
             self.fire(a)
 
+    def harness_fail(self, msg):
+        """Record a simulator-side failure from a context where raising is unsafe."""
+        self.harness_errors.append(msg)
+        self._stop("harness-error")
+
     def _stop(self, why):
         if self.stop_reason is None:
             self.stop_reason = why
@@ -716,7 +731,7 @@ class Sim:
                     except SimDeadlock as e:
                         self.stop_reason = "deadlock"
                         self.notes.append(str(e))
-                    if self.violation is None:
+                    if self.violation is None and not self.harness_errors:
                         try:
                             self.judge()
                         except Violation as v:
@@ -730,6 +745,8 @@ class Sim:
                 self.loop.close()
             except Exception:
                 pass
+        if self.harness_errors:
+            raise HarnessError("; ".join(self.harness_errors[:3]))
         res = self.result()
         res["wall_s"] = _real_time.perf_counter() - t0
         return res
